@@ -210,6 +210,14 @@ impl<'a> Gen<'a> {
     fn reg(&mut self) -> u8 {
         self.rng.idx(self.p.regs) as u8
     }
+    /// a traced slot: mostly an ordinary one, sometimes the ManuallyDrop one (index NT)
+    fn tslot(&mut self) -> u8 {
+        if self.rng.chance(1, 8) {
+            NT as u8
+        } else {
+            self.rng.idx(NT) as u8
+        }
+    }
     fn glob(&mut self) -> u8 {
         self.rng.idx(NG) as u8
     }
@@ -244,21 +252,21 @@ impl<'a> Gen<'a> {
         let resurrect = self.rng.chance(self.p.resurrect_pct as u64, 100);
         if resurrect {
             match self.rng.idx(if self.p.weak_neutral { 4 } else { 9 }) {
-                0 => Act::Clone { src: Src::MeT(self.rng.idx(NT) as u8), dst: Dst::G(self.glob()) },
-                1 => Act::Clone { src: Src::MeT(self.rng.idx(NT) as u8), dst: Dst::Slot(Own::G(self.glob()), self.rng.chance(1, 4), 0) },
-                2 => Act::Take { src: Src::MeT(self.rng.idx(NT) as u8), dst: Dst::G(self.glob()) },
+                0 => Act::Clone { src: Src::MeT(self.tslot()), dst: Dst::G(self.glob()) },
+                1 => Act::Clone { src: Src::MeT(self.tslot()), dst: Dst::Slot(Own::G(self.glob()), self.rng.chance(1, 4), 0) },
+                2 => Act::Take { src: Src::MeT(self.tslot()), dst: Dst::G(self.glob()) },
                 // a neighbour parked in one of the object's own slots (still only reachable through the garbage)
-                3 => Act::Clone { src: Src::MeT(self.rng.idx(NT) as u8), dst: Dst::Slot(Own::Me, self.rng.chance(1, 3), self.rng.idx(NT) as u8) },
+                3 => Act::Clone { src: Src::MeT(self.tslot()), dst: Dst::Slot(Own::Me, self.rng.chance(1, 3), self.tslot()) },
                 // self resurrection through the self-weak kept in weak slot 0
                 4 | 5 => Act::Upgrade { src: WLoc::Of(Own::Me, 0), dst: Dst::G(self.glob()) },
                 6 => Act::Upgrade { src: WLoc::Of(Own::Me, 1), dst: Dst::G(self.glob()) },
                 // ... or into a slot of the object itself / of a neighbour: alive again by its own count, yet unreachable
-                7 => Act::Upgrade { src: WLoc::Of(Own::Me, 0), dst: Dst::Slot(Own::Me, self.rng.chance(1, 4), self.rng.idx(NT) as u8) },
-                _ => Act::Upgrade { src: WLoc::Of(Own::Me, self.rng.idx(NW) as u8), dst: Dst::Slot(Own::G(self.glob()), false, self.rng.idx(NT) as u8) },
+                7 => Act::Upgrade { src: WLoc::Of(Own::Me, 0), dst: Dst::Slot(Own::Me, self.rng.chance(1, 4), self.tslot()) },
+                _ => Act::Upgrade { src: WLoc::Of(Own::Me, self.rng.idx(NW) as u8), dst: Dst::Slot(Own::G(self.glob()), false, self.tslot()) },
             }
         } else {
             match self.rng.idx(14) {
-                0 | 1 => Act::Drop { dst: Dst::Slot(Own::Me, false, self.rng.idx(NT) as u8) },
+                0 | 1 => Act::Drop { dst: Dst::Slot(Own::Me, false, self.tslot()) },
                 2 => Act::Drop { dst: Dst::Slot(Own::Me, true, 0) },
                 3 => Act::Drop { dst: Dst::G(self.glob()) },
                 4 => {
@@ -276,9 +284,9 @@ impl<'a> Gen<'a> {
                 5 => Act::Collect,
                 6 => Act::TryUnwrap { reg: Dst::G(self.glob()) },
                 7 => Act::FinalizeAgain { reg: Dst::G(self.glob()) },
-                8 => Act::Clone { src: Src::G(self.glob()), dst: Dst::Slot(Own::Me, false, self.rng.idx(NT) as u8) },
+                8 => Act::Clone { src: Src::G(self.glob()), dst: Dst::Slot(Own::Me, false, self.tslot()) },
                 9 => Act::Upgrade { src: WLoc::Of(Own::Me, self.rng.idx(NW) as u8), dst: Dst::Discard },
-                10 => Act::MarkAlive { src: Src::MeT(self.rng.idx(NT) as u8) },
+                10 => Act::MarkAlive { src: Src::MeT(self.tslot()) },
                 11 => Act::Clean { c: self.rng.idx(NC) as u8 },
                 12 => Act::Drop { dst: Dst::R(self.reg()) },
                 _ => Act::Query,
@@ -473,19 +481,19 @@ impl<'a> Gen<'a> {
                     let a = if self.rng.chance(1, 2) {
                         Act::Take { src: self.src(), dst: self.dst() }
                     } else {
-                        Act::Take { src: self.src(), dst: Dst::Slot(self.own(), self.rng.chance(p.w_set_hidden_pct as u64, 100), self.rng.idx(NT) as u8) }
+                        Act::Take { src: self.src(), dst: Dst::Slot(self.own(), self.rng.chance(p.w_set_hidden_pct as u64, 100), self.tslot()) }
                     };
                     ops.push(a);
                 }
                 4 => ops.push(Act::Drop { dst: Dst::R(self.reg()) }),
                 5 => {
                     let hid = self.rng.chance(p.w_set_hidden_pct as u64, 100);
-                    let i = if hid { self.rng.idx(NH) } else { self.rng.idx(NT) } as u8;
+                    let i = if hid { self.rng.idx(NH) as u8 } else { self.tslot() };
                     ops.push(Act::Clone { src: self.src(), dst: Dst::Slot(self.own(), hid, i) });
                 }
                 6 => {
                     let hid = self.rng.chance(p.w_set_hidden_pct as u64, 100);
-                    let i = if hid { self.rng.idx(NH) } else { self.rng.idx(NT) } as u8;
+                    let i = if hid { self.rng.idx(NH) as u8 } else { self.tslot() };
                     ops.push(Act::Drop { dst: Dst::Slot(self.own(), hid, i) });
                 }
                 7 => ops.push(Act::MarkAlive { src: self.src() }),
